@@ -119,6 +119,11 @@ Next == \/ \E g \in Globals, s1 \in SecChoices, s2 \in SecChoices : SetupCfg(g, 
         \/ ServeSpec \/ RouteMiss \/ RouteOp \/ EnterMW \/ AuthStep \/ Reject401 \/ CallPublic \/ Respond \/ LeaveMW \/ Finish
 
 Spec == Init /\ [][Next]_vars
+\* C14 "always answers", design level: under weak fairness of the step relation every received request reaches
+\* "done" (there is no state of ServeHTTP from which no step is possible, and no cycle that avoids the answer);
+\* checked without a state constraint (MC_Pipeline_live.cfg)
+FairSpec == Spec /\ WF_vars(Next)
+EveryRequestAnswered == (pc = "recv") ~> (pc = "done")
 
 (* ---- Impl => Prop ---- *)
 IsOp == target \in Ops
